@@ -59,7 +59,7 @@ var (
 	tokValueLabels = []string{"bool", "int0", "int1", "int-1", "int53max", "int53min", "float1.5", "float1.0", "float-0", "float-min", "float-max",
 		"str-empty", "str-ascii", "str-utf8", "bytes-empty", "bytes", "list", "map", "link", "null"}
 
-	timeLabels = []string{"absent", "whole", "subsec", "in-past", "2^53-1", "2^53", "y9999", "maxtime"}
+	timeLabels = []string{"absent", "whole", "subsec", "in-past", "2^53-1", "2^53", "y9999", "maxtime", "zero", "epoch", "unix-1", "unix1", "subsec-up"}
 )
 
 func tokValue(label string) any {
@@ -108,6 +108,14 @@ func tokValue(label string) any {
 		return basicInt(1 << 53)
 	case "str-600":
 		return strings.Repeat("0123456789", 60)
+	case "str-1023":
+		return strings.Repeat("0123456789abcdef", 64)[:1023]
+	case "str-1024":
+		return strings.Repeat("0123456789abcdef", 64)
+	case "str-5k":
+		return strings.Repeat("0123456789abcdef", 320)
+	case "bytes-1024":
+		return bytes.Repeat([]byte{0x5a}, 1024)
 	case "bytes-70k":
 		return bytes.Repeat([]byte{0xab, 0xcd, 0xef, 0x01, 0x23, 0x45, 0x67}, 10000)
 	}
@@ -133,6 +141,16 @@ func tokTime(label string) (time.Time, bool) {
 		return time.Date(9999, 12, 31, 23, 59, 59, 0, time.UTC), true
 	case "maxtime":
 		return time.Unix(1<<63-62135596801, 999999999), true
+	case "zero": // the zero value of time.Time (year 1): a present bound that happens to be a zero value
+		return time.Time{}, true
+	case "epoch":
+		return time.Unix(0, 0), true
+	case "unix-1":
+		return time.Unix(-1, 0), true
+	case "unix1":
+		return time.Unix(1, 0), true
+	case "subsec-up": // a fraction above one half
+		return time.Date(2200, 1, 1, 0, 0, 0, 750_000_000, time.UTC), true
 	}
 	return time.Time{}, false
 }
@@ -201,7 +219,7 @@ func argsLabels() []string {
 
 func dlgOptDefs() []optDef {
 	return []optDef{
-		{"sub", []string{"iss", "undef", "other"}},
+		{"sub", []string{"iss", "undef", "other", "root"}}, // "root": built with delegation.Root (subject = issuer)
 		{"aud", []string{"other", "self"}},
 		{"cmd", tokCommandLabels},
 		{"pol", []string{"empty", "eq", "nested", "int53max", "int53over", "values"}},
@@ -220,7 +238,7 @@ func invOptDefs() []optDef {
 		{"args", argsLabels()},
 		{"prf", []string{"1", "0", "3"}},
 		{"exp", timeLabels},
-		{"iat", []string{"auto", "none", "whole", "subsec", "2^53"}},
+		{"iat", []string{"auto", "none", "whole", "subsec", "2^53", "zero", "epoch", "unix-1", "subsec-up"}},
 		{"meta", metaLabels()},
 		{"nonce", []string{"auto", "12", "64", "empty"}},
 		{"cause", []string{"nil", "cid"}},
@@ -250,6 +268,22 @@ func applyKV(label string, add func(k string, v any) error, addEnc func(k string
 		return nil
 	case label == "k=encrypted":
 		return addEnc("k", "secret-plaintext-0123456789")
+	case label == "bounds":
+		// integers and string lengths on both sides of every CBOR head-width boundary
+		for i, v := range []int64{23, 24, 255, 256, 65535, 65536, 4294967295, 4294967296, -24, -25, -256, -257, -65536, -65537, -4294967296, -4294967297} {
+			if err := add(fmt.Sprintf("i%02d", i), v); err != nil {
+				return err
+			}
+		}
+		for _, n := range []int{23, 24, 255, 256} {
+			if err := add(fmt.Sprintf("s%d", n), strings.Repeat("x", n)); err != nil {
+				return err
+			}
+			if err := add(fmt.Sprintf("b%d", n), bytes.Repeat([]byte{7}, n)); err != nil {
+				return err
+			}
+		}
+		return add("l24", []int{0, 1, 2, 3, 4, 5, 6, 7, 8, 9, 10, 11, 12, 13, 14, 15, 16, 17, 18, 19, 20, 21, 22, 23})
 	case strings.HasPrefix(label, "k="):
 		return add("k", tokValue(strings.TrimPrefix(label, "k=")))
 	case strings.HasPrefix(label, "keys:"):
@@ -321,7 +355,13 @@ func BuildToken(spec TokSpec) (any, *fixtures.Key, error) {
 		case "64":
 			opts = append(opts, delegation.WithNonce(bytes.Repeat([]byte{0xab}, 64)))
 		}
-		t, err := delegation.New(k.DID, aud, tokCommand(opt("cmd", "/a")), tokPolicy(opt("pol", "empty")), opts...)
+		var t *delegation.Token
+		var err error
+		if opt("sub", "iss") == "root" {
+			t, err = delegation.Root(k.DID, aud, tokCommand(opt("cmd", "/a")), tokPolicy(opt("pol", "empty")), opts...)
+		} else {
+			t, err = delegation.New(k.DID, aud, tokCommand(opt("cmd", "/a")), tokPolicy(opt("pol", "empty")), opts...)
+		}
 		if err != nil {
 			return nil, k, err
 		}
